@@ -403,10 +403,13 @@ Proof.
     assert (Hmsg : s_slot s (t_idx (s_thr s t) mod cap c) = s_wr s (c_pre c + t_cnt (s_thr s t))).
     { rewrite C2. apply (b_slots _ _ Bsh); lia. }
     assert (Hu : Nat.add (unc1 (covered (t_view (s_thr s t)) (s_ver s) (CSlot (t_idx (s_thr s t) mod cap c))))
-                  (unc1 (if s_slot s (t_idx (s_thr s t) mod cap c) <? 0 then true
-                        else covered (t_view (s_thr s t)) (s_ver s) (CPay (s_slot s (t_idx (s_thr s t) mod cap c))))) = 0%nat).
-    { unfold covered. unfold vcov in Vs, Vp. rewrite Hmsg. rewrite Vs, Vp, !Z.eqb_refl.
-      destruct (s_wr s (c_pre c + t_cnt (s_thr s t)) <? 0); reflexivity. }
+                  (unc1 (if 0 <=? c_val c (s_slot s (t_idx (s_thr s t) mod cap c))
+                        then covered (t_view (s_thr s t)) (s_ver s)
+                               (CPay (c_val c (s_slot s (t_idx (s_thr s t) mod cap c))))
+                        else true)) = 0%nat).
+    { unfold covered. unfold vcov in Vs, Vp. rewrite Hmsg. rewrite Vs, Z.eqb_refl.
+      destruct (Z.leb_spec 0 (c_val c (s_wr s (c_pre c + t_cnt (s_thr s t))))) as [Hv|Hv]; [|reflexivity].
+      rewrite (wf_val _ Hwf _ Hv), Vp, Z.eqb_refl. reflexivity. }
     inv_some Hs. rewrite Hu.
     destruct Vsh as [H1 H2 H3 H4 H5 H6 H7 H8 H9 H10]. split.
     + constructor; simpl; try assumption. rewrite H9. reflexivity.
@@ -512,9 +515,12 @@ Proof.
       * apply (vthr_same6 s); try reflexivity. apply Vall.
   - (* KDoneSeg *)
     destruct Vpc as [Pm Pc].
-    assert (Hu : unc1 (if t_ret (s_thr s t) <? 0 then true
-                       else covered (t_view (s_thr s t)) (s_ver s) (CPay (t_ret (s_thr s t)))) = 0%nat).
-    { unfold covered. unfold vcov in Pc. rewrite Pc, Z.eqb_refl. destruct (t_ret (s_thr s t) <? 0); reflexivity. }
+    assert (Hu : unc1 (if 0 <=? c_val c (t_ret (s_thr s t))
+                       then covered (t_view (s_thr s t)) (s_ver s) (CPay (c_val c (t_ret (s_thr s t))))
+                       else true) = 0%nat).
+    { unfold covered. unfold vcov in Pc.
+      destruct (Z.leb_spec 0 (c_val c (t_ret (s_thr s t)))) as [Hv|Hv]; [|reflexivity].
+      rewrite (wf_val _ Hwf _ Hv), Pc, Z.eqb_refl. reflexivity. }
     inv_some Hs. rewrite Hu.
     destruct Vsh as [H1 H2 H3 H4 H5 H6 H7 H8 H9 H10]. split.
     + constructor; simpl; try assumption. rewrite H9. reflexivity.
